@@ -130,7 +130,8 @@ _WHERE = {
     "C17": ("displayhook", "C17",
             "TLC explores every program of with-blocks up to the bound (3 tags, nesting 3, exceptions at every point, "
             "guarded and unguarded blocks) on the DisplayHook machine and checks hook restoration on every exit path, "
-            "exactly-once delivery and intact chain on re-entry; every complete program of the generation bound and "
+            "exactly-once delivery and intact chain on re-entry; the hook-chain invariant is additionally checked to be "
+            "inductive (every state satisfying it is an initial state), which covers programs of any length over 3/4 tags; every complete program of the generation bound and "
             "seeded random programs (to depth 8, 60 events) are executed with genuine `with tag:` statements and TLC "
             "replays each recorded run through the same step function, comparing hook identity, children, deliveries "
             "and exceptions after every event.",
